@@ -44,7 +44,7 @@ def extra_programs():
 
 
 def family(tier):
-    base = progs.family_fun() + progs.family_cls() + extra_programs()
+    base = progs.family_fun() + progs.family_cls() + extra_programs() + progs.family_calls_generated(72 if tier == "quick" else 729)
     wit = [p for p in base if p["name"] in WITNESSES]
     base = [p for p in base if p["name"] not in WITNESSES]
     return [with_call(p) for p in base + wit]
